@@ -45,7 +45,7 @@ FAULTS = ["none", "none", "none", "account", "interval", "interval-hardened", "w
           "missing-positional", "mnemonic-len", "no-command", "unknown-option"]
 FILE_STATES = ["none", "none", "absent", "absent", "existing", "directory", "missing-parent", "parent-is-file",
                "symlink-existing", "symlink-dangling", "twice", "tilde-existing", "existing-dotslash",
-               "fifo", "devnull", "symlink-devnull", "existing-empty"]
+               "fifo", "devnull", "symlink-devnull", "existing-empty", "symlink-dir-dotdot"]
 
 
 def gen_intent(tier):
@@ -158,6 +158,16 @@ def build_argv(it, tmp):
             info["sentinels"].append(mk("empty.json"))
             info["existing_special"] = mk("empty.json")
             path = mk("empty.json")
+        elif fstate == "symlink-dir-dotdot":
+            # `link/../wallet.json` where link -> elsewhere/sub: the OS resolves it to elsewhere/wallet.json (absent), while
+            # a purely textual normalisation would point at ./wallet.json, which exists
+            os.makedirs(mk("elsewhere/sub"))
+            os.symlink(mk("elsewhere/sub"), mk("link"))
+            with open(mk("wallet.json"), "w") as f:
+                f.write(SENTINEL)
+            info["sentinels"].append(mk("wallet.json"))
+            path = "link/../wallet.json" if fv % 2 else mk("link/../wallet.json")
+            info["target"] = mk("elsewhere/wallet.json")
         elif fstate == "tilde-existing":
             with open(mk("wallet.json"), "w") as f:
                 f.write(SENTINEL)
@@ -204,7 +214,12 @@ def build_argv(it, tmp):
         m = mnemonic
         if fault == "words":
             ws = mnemonic.split(" ")
-            m = " ".join([ws[:11], ws + ["abandon"], ws[:1], ws * 3][fv % 4])
+            # word counts on both sides of every valid length, multiples of three outside 12..24, pasted-together sentences
+            bad_counts = [11, 13, 14, 16, 17, 19, 20, 22, 23, 25, 26, 27, 30, 33, 36, 48, 9, 6, 3, 1, 2 * len(ws), 3 * len(ws)]
+            cnt = bad_counts[fv % len(bad_counts)]
+            if cnt in (12, 15, 18, 21, 24):
+                cnt += 1
+            m = " ".join((ws * 6)[:cnt])
         elif fv % 5 == 0:
             m = mnemonic + " " * 0  # unchanged; trailing-space variants are refused by the word count rule
         sub = ["from-mnemonic"]
@@ -369,7 +384,7 @@ def judge(it, argv, info, r, before, after, recorded, ctx, mode):
         raise Violation("C20/files/unrequested-file-created", "%s created %s" % (what, os.path.basename(info["never"])))
     if r["status"] != 0:
         ctx.count("rejected")
-        if it["fault"] == "none" and it["file"] in ("none", "absent", "twice", "symlink-dangling") and not (it["pw"] or "").startswith("-"):
+        if it["fault"] == "none" and it["file"] in ("none", "absent", "twice", "symlink-dangling", "symlink-dir-dotdot") and not (it["pw"] or "").startswith("-"):
             ctx.count("clean-intent-rejected")
         leak = has_wallet_data(r["out"])
         if leak:
@@ -380,6 +395,22 @@ def judge(it, argv, info, r, before, after, recorded, ctx, mode):
                             % (what, r["status"], sorted(os.path.basename(p) for p in created)))
         return
     ctx.count("accepted")
+    # arguments that are bad by the definition of the format itself (BIP39 word counts and entropy sizes, the 64-byte BIP39
+    # seed, the 111-character extended key): the title clause - bad arguments yield no wallet output
+    bad = None
+    if it["cmd"] == "from-mnemonic" and "mnemonic" in info and len(info["mnemonic"].split(" ")) not in (12, 15, 18, 21, 24):
+        bad = ("words", "mnemonic word count (%d)" % len(info["mnemonic"].split(" ")))
+    elif it["cmd"] == "new" and info.get("words", 24) not in (12, 15, 18, 21, 24):
+        bad = ("mnemonic-len", "requested word count (%r)" % info.get("words"))
+    elif it["cmd"] == "from-bip39-seed" and "seed_hex" in info and len(info["seed_hex"]) != 128:
+        bad = ("seed-len", "BIP39 seed length (%d hex digits)" % len(info["seed_hex"]))
+    elif it["cmd"] == "from-entropy-hex" and "entropy_hex" in info and len(info["entropy_hex"]) * 4 not in (128, 160, 192, 224, 256):
+        bad = ("entropy-len", "entropy size (%d hex digits)" % len(info["entropy_hex"]))
+    elif it["cmd"] == "from-master-xprv" and "xkey" in info and len(info["xkey"]) != 111:
+        bad = ("xkey-len", "extended key length (%d characters)" % len(info["xkey"]))
+    if bad is not None and it["fault"] not in ("no-command", "unknown-command", "missing-positional"):
+        raise Violation("C20/accepted/bad-argument[%s]" % bad[0], "%s exited 0 and produced a wallet although the %s is outside what "
+                        "the format defines" % (what, bad[1]))
     # accepted: the JSON is on stdout, or in the requested new file with stdout empty
     target = info.get("target")
     file_new = [p for p in created if after[p][0] == "file"]
@@ -578,7 +609,7 @@ def clauses():
                "outside), rows are m/P'/c'/a'/0/i with non-hardened i inside the requested interval; 3% (quick) / 5% "
                "(thorough) re-run as a real `python -m btc_hd_wallet` subprocess; non-trivial = faulted intent or "
                "non-default network/account/interval/file",
-               gen=gen_thorough, enum=enum_grid, enum_desc="19 fault kinds x 15 file-path states (absent, existing, directory, symlinks, named pipe, /dev/null, ...)",
+               gen=gen_thorough, enum=enum_grid, enum_desc="19 fault kinds x 16 file-path states (absent, existing, directory, symlinks, named pipe, /dev/null, ...)",
                nontrivial=nt_intent, classes=classes_intent,
                n={"quick": 420, "thorough": 10000}, shards={"quick": 16, "thorough": 16}),
         Clause("broken-pipe", check_pipe,
